@@ -80,6 +80,31 @@ func runC10(r *Report, tier string) {
 	}
 	target := T("param", "1")
 	sb := &specBuilder{}
+	// the form selector: what the full / abbreviated key sites pass as the
+	// builder's first argument (a closed constant: a bool, or whatever else
+	// the builder is parameterised with)
+	selector := map[bool]*Term{}
+	selectorWhy := map[bool]string{}
+	for _, s := range P.keySites() {
+		if !strings.Contains(siteKind(s), "ountersign") {
+			continue
+		}
+		ab := s.fn.Signature.Recv() == nil
+		call := builderCallAt(P, s, F)
+		if call == nil {
+			continue
+		}
+		sel := P.foldGlobals(call.Args[0])
+		switch {
+		case !closedConst(sel):
+			selectorWhy[ab] = "the form selector passed at " + shortFn(s.fn) + " is not a constant: " + truncate(sel.String(), 120)
+		case selector[ab] != nil && !selector[ab].eq(sel):
+			selectorWhy[ab] = "sign and verify sites pass different form selectors"
+		default:
+			selector[ab] = sel
+		}
+	}
+	formCtx := map[bool]map[string]bool{false: {}, true: {}}
 	seen := map[string]bool{}
 	nPtr := 0
 	npaths := 0
@@ -125,16 +150,23 @@ func runC10(r *Report, tier string) {
 			r.ob("R10.1", id+":kind", F, p.ret, "only the four RFC 9338 parent kinds are supported").fail("unexpected parent kind " + kind)
 			continue
 		}
-		forms := []bool{}
-		switch {
-		case p.has(Fact{T("param", "0"), true}):
-			forms = []bool{true}
-		case p.has(Fact{T("param", "0"), false}):
-			forms = []bool{false}
-		default:
-			forms = []bool{false, true} // the path does not branch on the form itself
-		}
-		for _, abbreviated := range forms {
+		for _, abbreviated := range []bool{false, true} {
+			sel := selector[abbreviated]
+			if sel == nil {
+				continue // reported by R10.3
+			}
+			// the path under this form: the selector substituted for the
+			// builder's first parameter; paths it makes infeasible are not
+			// part of this form
+			m := map[string]*Term{"0": sel}
+			fp := *p
+			fp.conds = nil
+			for _, c := range p.conds {
+				fp.conds = append(fp.conds, normFact(P.foldGlobals(c.Pred.subst(m)), c.Val))
+			}
+			if !fp.feasible() {
+				continue
+			}
 			key := fmt.Sprintf("%s:abbreviated=%v", kind, abbreviated)
 			seen[key] = true
 			o := r.ob("R10.1", fmt.Sprintf("%s:%s:%s", shortFn(F), key, pathID(p)), F, p.ret, "arm yields the RFC 9338 Countersign_structure for this parent kind")
@@ -142,9 +174,10 @@ func runC10(r *Report, tier string) {
 			tval := &Term{Op: "res", S: "0", Args: []*Term{{Op: "typeassert", S: kind + ",ok", Args: []*Term{target}}}}
 			// helpers that pick a constant (e.g. the context string) are evaluated
 			// under this path's knowledge plus the form being examined
-			assume := factSet{}
-			assume.add(Fact{T("param", "0"), abbreviated})
-			content := canon(p.eng.expand(P.evalCalls(p, res[0], assume, 0), 8))
+			content := canon(p.eng.expand(P.evalCalls(&fp, P.foldGlobals(res[0].subst(m)), factSet{}, 0), 8))
+			for _, c := range contextConsts(content) {
+				formCtx[abbreviated][c] = true
+			}
 			// resolve loads of the local copy of the parent
 			content = resolveParentCopy(P, F, p, content, tval)
 			hT := T("var", "PARENT")
@@ -251,18 +284,24 @@ func runC10(r *Report, tier string) {
 			continue
 		}
 		full := s.fn.Signature.Recv() != nil
-		why := ""
+		why := selectorWhy[!full]
+		// under this site's selector the builder yields exactly the two
+		// context strings of the site's form (R10.1 examined the paths)
+		var got []string
+		for c := range formCtx[!full] {
+			got = append(got, c)
+		}
+		sort.Strings(got)
+		wantCtx := []string{csContext(!full, false), csContext(!full, true)}
+		sort.Strings(wantCtx)
+		if why == "" && strings.Join(got, ",") != strings.Join(wantCtx, ",") {
+			why = fmt.Sprintf("with the selector %s passed here the builder uses the contexts %v, expected %v", truncate(call.Args[0].String(), 80), got, wantCtx)
+		}
 		if full {
-			if call.Args[0].String() != "false" {
-				why = "full countersignature passes abbreviated=" + call.Args[0].String()
-			}
 			if _, ok := unify(pProt(pField(T("param", "0"), "Headers")), canon(call.Args[2]), bindings{}); !ok && why == "" {
 				why = "countersigner protected bytes are " + truncate(call.Args[2].String(), 160) + ", not ProtBytes(own Headers)"
 			}
 		} else {
-			if call.Args[0].String() != "true" {
-				why = "abbreviated countersignature passes abbreviated=" + call.Args[0].String()
-			}
 			if b, ok := byteArr(call.Args[2]); (!ok || len(b) != 1 || b[0] != 0x40) && why == "" {
 				why = "abbreviated form's sign_protected is " + call.Args[2].String() + ", not the empty bstr 0x40"
 			}
